@@ -523,7 +523,16 @@ func runCase(line []byte, out *json.Encoder) error {
 	}
 	obs.Alloc = m1.TotalAlloc - m0.TotalAlloc
 	obs.Mallocs = m1.Mallocs - m0.Mallocs
-	if obs.Alloc > 1<<20 {
+	if obs.Alloc > 1<<16 && obs.Outcome != "panic" && berr == nil {
+		// where was it allocated?  run the case once more between two heap-profile snapshots
+		allocSite()
+		atomic.StoreInt64(&wdStart, time.Now().UnixNano())
+		func() {
+			defer func() { _ = recover() }()
+			var o2 c04Obs
+			_ = runEntry(&c, exactCopy(data), &o2)
+		}()
+		atomic.StoreInt64(&wdStart, 0)
 		obs.AllocAt = allocSite()
 	}
 	return out.Encode(&obs)
